@@ -12,8 +12,9 @@ def main():
     except lib.ToolError as e:
         print(e)
         sys.exit(2)
-    for m in ["CVec", "MC_CVec", "Gen_CVec", "Trace_CVec"]:
-        lib.sany(m)
+    import glob
+    for f in sorted(glob.glob(os.path.join(lib.SPEC, "*.tla"))):
+        lib.sany(os.path.basename(f)[:-4])
     print("setup ok")
 
 if __name__ == "__main__":
